@@ -134,6 +134,7 @@ def run_hist(case, ctx):
         ctx.violate(f"C13/construct:{objs.type}", f"{objs!r}")
         return
     T = valida.Schema(list(objs))
+    S_pre = None
     if h["serialise_first"]:
         call(T.to_json_like)
         for o in objs:
@@ -141,6 +142,8 @@ def run_hist(case, ctx):
     own = h.get("own", [])
     S = valida.Schema([build.rule_obj(r) for r in own])
     root = build.path_obj(PC.mkpath(h["root"]))
+    if h["serialise_first"]:
+        call(S.to_json_like)  # the receiving schema has been serialised before it grows
     ok, e = call(S.add_schema, T, root)
     if not ok:
         ctx.violate(f"C13/{e.key()}/history", f"add_schema raised {e!r}")
